@@ -29,7 +29,10 @@ Inductive item :=
 (* tables as the harness reads them from the App, sorted by key *)
 Definition snap := (list (bytes * drule) * list (bytes * option (list bytes)))%type.
 
-Definition case := (bytes * list (bytes * (drule + bytes)) * list (bytes * (srule + bytes)) * list (item * snap))%type.
+(* [probes]: every command sent and every reply seen in the session, with what Go's json.Valid said about
+   it - the checker [wf] the theorems speak about must agree with json.Valid on all of them *)
+Definition case := (bytes * list (bytes * (drule + bytes)) * list (bytes * (srule + bytes)) * list (item * snap)
+                    * list (bytes * bool))%type.
 
 Definition tab_dec {R} (t : list (bytes * (R + bytes))) (raw : bytes) : R + bytes :=
   match @lookup bytes (R + bytes) beqb raw t with Some r => r | None => inr [] end.
@@ -86,11 +89,12 @@ Definition start (api : bytes) : st :=
   mkst (if is_nil api then [] else rwc_add [] (api_rule api)) [].
 
 Definition case_ok (c : case) : bool :=
-  let '(api, td, ts, items) := c in items_ok api (tab_dec td) (tab_dec ts) (start api) items.
+  let '(api, td, ts, items, probes) := c in
+  items_ok api (tab_dec td) (tab_dec ts) (start api) items && forallb (fun p => Bool.eqb (wf (fst p)) (snd p)) probes.
 
 (* non-trivial: the model run changes the rule tables at least twice *)
 Definition case_nontrivial (c : case) : bool :=
-  let '(api, td, ts, items) := c in 2 <=? nchanges api (tab_dec td) (tab_dec ts) (start api) items.
+  let '(api, td, ts, items, _) := c in 2 <=? nchanges api (tab_dec td) (tab_dec ts) (start api) items.
 
 
 (* diagnostics: per item, (answer agrees, tables agree) *)
@@ -104,8 +108,9 @@ Section Diag.
     | (i, n) :: r => let '(s', ok) := item_step api dd ds s i in (ok, snap_ok s' n) :: item_flags s' r
     end.
 End Diag.
-Definition case_flags (c : case) : list (bool * bool) :=
-  let '(api, td, ts, items) := c in item_flags api (tab_dec td) (tab_dec ts) (start api) items.
+Definition case_flags (c : case) : list (bool * bool) * list bool :=
+  let '(api, td, ts, items, probes) := c in
+  (item_flags api (tab_dec td) (tab_dec ts) (start api) items, map (fun p => Bool.eqb (wf (fst p)) (snd p)) probes).
 
 Definition mismatches (cs : list case) : list N := mismatch_idx case_ok 0 cs.
 Definition nontrivial (cs : list case) : list N := idx_where case_nontrivial cs.
